@@ -31,7 +31,7 @@ ASSUMPTIONS = [
     "values are compared by canonical repr and type",
 ]
 PROBES = ["cache_hit_after_edit", "revert", "all_cached", "location_evaluated:package", "location_evaluated:main",
-          "location_evaluated:notebook"]
+          "location_evaluated:notebook", "notebook_redefinition"]
 
 PROFILE = {
     "feat": gen.swarm_feat,
